@@ -53,6 +53,16 @@ func (fr *Frame) calleeOf(c *ssa.CallCommon) calleeInfo {
 		}
 		return ci
 	}
+	// call of a function value stored in a struct field: addressed by "field <pkg>.<Type>.<field>"
+	if u, ok := c.Value.(*ssa.UnOp); ok && u.Op == token.MUL {
+		if fa, ok := u.X.(*ssa.FieldAddr); ok {
+			st := fa.X.Type().Underlying().(*types.Pointer).Elem()
+			if s, ok := st.Underlying().(*types.Struct); ok {
+				name := "field " + types.TypeString(st, nil) + "." + s.Field(fa.Field).Name()
+				return calleeInfo{display: name, keys: []string{name}, sig: c.Signature()}
+			}
+		}
+	}
 	return calleeInfo{display: "dynamic:" + c.Value.Name(), sig: c.Signature()}
 }
 
@@ -95,10 +105,29 @@ func (fr *Frame) callAssigns(c *ssa.CallCommon) (map[string]bool, bool) {
 		return h.assigns(fr, c, out)
 	}
 	ct := ex.findContract(ci)
+	if ct != nil && ct.Inline && ci.fn != nil && len(ci.fn.Blocks) > 0 {
+		ct = nil
+		return fr.bodyAssigns(ci.fn, out, 0)
+	}
 	if ct == nil {
 		if ci.fn != nil && inRepo(funcPkgPath(ci.fn)) && len(ci.fn.Blocks) > 0 {
-			// would be inlined: conservative
-			return out, true
+			// will be inlined: scan its body
+			return fr.bodyAssigns(ci.fn, out, 0)
+		}
+		isLib := !strings.HasPrefix(ci.display, "package-operator.run/") && !strings.HasPrefix(ci.display, "(package-operator.run/") &&
+			!strings.HasPrefix(ci.display, "field package-operator.run/") && !strings.HasPrefix(ci.display, "dynamic:")
+		if c.IsInvoke() && accessorIface(ci.display) {
+			m := ci.display[strings.LastIndex(ci.display, ".")+1:]
+			if strings.HasPrefix(m, "Get") || strings.HasPrefix(m, "Is") || strings.HasPrefix(m, "Has") {
+				return out, false
+			}
+			if strings.HasPrefix(m, "Set") {
+				isLib = true
+			}
+		}
+		if isLib {
+			out["*lib"] = true // everything except pure ghost state
+			return out, false
 		}
 		return out, true
 	}
@@ -280,7 +309,25 @@ func (fr *Frame) call(in ssa.Instruction, c *ssa.CallCommon) []Val {
 			return res
 		}
 	}
+	// accessor interfaces of internal/adapters (thin wrappers around API object fields): getters are read-only,
+	// setters change the wrapped object only (trusted accessor model, listed in the evidence)
+	if ci.invoke && accessorIface(ci.display) {
+		m := ci.display[strings.LastIndex(ci.display, ".")+1:]
+		ex.usedSpecs["accessor-model "+shortName(ci.display)] = true
+		if strings.HasPrefix(m, "Get") || strings.HasPrefix(m, "Is") || strings.HasPrefix(m, "Has") {
+			return fr.freshResults(ci.sig, "ret_"+m)
+		}
+		if strings.HasPrefix(m, "Set") {
+			fr.curMem = ex.havocLib(fr.curMem)
+			return fr.freshResults(ci.sig, "ret_"+m)
+		}
+	}
 	return fr.unknownCall(ci, args)
+}
+
+func accessorIface(display string) bool {
+	return strings.HasPrefix(display, "package-operator.run/internal/adapters.") ||
+		strings.Contains(display, ".genericObjectSetPhase.") || strings.Contains(display, ".objectSetAccessor.")
 }
 
 func (fr *Frame) recursive(fn *ssa.Function) bool {
@@ -291,8 +338,14 @@ func (fr *Frame) recursive(fn *ssa.Function) bool {
 func (fr *Frame) unknownCall(ci calleeInfo, args []Val) []Val {
 	ex := fr.ex
 	ex.unknownCalls[ci.display]++
-	fr.curMem = ex.newMem()
-	fr.curMem.lost = true
+	isLib := !strings.HasPrefix(ci.display, "package-operator.run/") && !strings.HasPrefix(ci.display, "(package-operator.run/") &&
+		!strings.HasPrefix(ci.display, "field package-operator.run/") && !strings.HasPrefix(ci.display, "dynamic:")
+	if isLib {
+		fr.curMem = ex.havocLib(fr.curMem) // library code cannot change pure ghost state
+	} else {
+		fr.curMem = ex.newMem()
+		fr.curMem.lost = true
+	}
 	return fr.freshResults(ci.sig, "ret_"+lastSeg(ci.display))
 }
 
@@ -490,6 +543,9 @@ func (fr *Frame) callOrdinal(in ssa.Instruction, display string) int {
 }
 
 func (fr *Frame) calleeDisplayQuick(c *ssa.CallCommon) string {
+	if !c.IsInvoke() && c.StaticCallee() == nil {
+		return fr.calleeOf(c).display
+	}
 	if c.IsInvoke() {
 		return types.TypeString(c.Value.Type(), nil) + "." + c.Method.Name()
 	}
@@ -943,4 +999,73 @@ func (ex *Exec) havocGoMemory(mem *MemState) {
 	for k, v := range keep {
 		mem.arrays[k] = v
 	}
+}
+
+var bodyAssignsDepth = 0
+
+// bodyAssigns: state a (to be inlined) function body may modify.
+func (fr *Frame) bodyAssigns(fn *ssa.Function, out map[string]bool, depth int) (map[string]bool, bool) {
+	ex := fr.ex
+	if bodyAssignsDepth > 3 || fn == fr.fn || fn == ex.top {
+		return out, true
+	}
+	bodyAssignsDepth++
+	defer func() { bodyAssignsDepth-- }()
+	child := newFrame(ex, fn)
+	all := false
+	for _, b := range fn.Blocks {
+		for _, in := range b.Instrs {
+			switch x := in.(type) {
+			case *ssa.Store:
+				et := x.Addr.Type().Underlying().(*types.Pointer).Elem()
+				ex.leafArraysOf(et, out, map[string]bool{})
+			case *ssa.Alloc:
+				et := x.Type().Underlying().(*types.Pointer).Elem()
+				ex.leafArraysOf(et, out, map[string]bool{})
+			case *ssa.MapUpdate:
+				mt := x.Map.Type().Underlying().(*types.Map)
+				has, val, _, _ := ex.mapArrays(mt)
+				out[has], out[val], out["ML"] = true, true, true
+			case *ssa.MakeMap:
+				mt := x.Type().Underlying().(*types.Map)
+				has, _, _, _ := ex.mapArrays(mt)
+				out[has], out["ML"] = true, true
+			case *ssa.MakeSlice:
+				ex.leafArraysOf(x.Type().Underlying().(*types.Slice).Elem(), out, map[string]bool{})
+			case *ssa.Call:
+				_, al := child.callAssigns(&x.Call)
+				a, _ := child.callAssigns(&x.Call)
+				for k := range a {
+					out[k] = true
+				}
+				if al {
+					all = true
+				}
+			case *ssa.Defer:
+				a, al := child.callAssigns(&x.Call)
+				for k := range a {
+					out[k] = true
+				}
+				if al {
+					all = true
+				}
+			case *ssa.Go, *ssa.Send, *ssa.Range, *ssa.Next:
+				all = true
+			}
+		}
+	}
+	return out, all
+}
+
+// havocLib: everything may change except pure ghost state.
+func (ex *Exec) havocLib(mem *MemState) *MemState {
+	nm := ex.newMem()
+	nm.lost = true
+	for _, mn := range sortedKeys(ex.S.Models) {
+		if md := ex.S.Models[mn]; md.Ghost {
+			an, _ := ex.modelArray(mn)
+			nm.arrays[an] = ex.memGet(mem, an)
+		}
+	}
+	return nm
 }
